@@ -1,6 +1,6 @@
-(* C10 - LL(1) conflicts are reported exactly where the grammar has them (rules that are not left
-   recursive and every construct nested anywhere; the operator checks of left-recursive rules are
-   decided by the K2 correspondence and the definitional oracle, see DESIGN.md).
+(* C10 - LL(1) conflicts are reported exactly where the grammar has them: alternations, loops and
+   options of rules that are not left recursive and of every nested construct (first two theorems)
+   and the operator conflicts of left-recursive rules (third theorem).
    For all first/follow/predict maps, every regular expression x and enough fuel (analyse passes
    S (rsize x)): the transcription of LL1Validator::check reports E011/E013/E014 at a node iff
    the definition of a conflict holds there ([Conflict]: an unguarded branch shares a predict token
@@ -19,5 +19,14 @@ Theorem C10_conflict_free_iff_ll1 :
   <-> (forall c n, ~ Conflict fo pr x c n).
 Proof. exact conflict_free_iff. Qed.
 
+(* the operator part of a left-recursive rule: E012 is reported at an operator iff its branch has no
+   leading predicate and the operator's predict set shares a token with the rule's outside follow
+   (left_rec_local_follow) or with the operator of a later left-recursive branch *)
+Theorem C10_operator_conflicts_exact :
+  forall fi fo pr lf fuel id alts recs n,
+  In (E012, n) (check_regex fi fo pr lf (S fuel) (RAlt id alts) recs) <-> OpConflict pr lf recs id n.
+Proof. exact operator_conflicts_exact. Qed.
+
 Print Assumptions C10_conflicts_reported_exactly.
 Print Assumptions C10_conflict_free_iff_ll1.
+Print Assumptions C10_operator_conflicts_exact.
